@@ -78,8 +78,13 @@ Definition t_eliso2a : list (string * Z) := Eval vm_compute in combine pt_EA pt_
 (** rows (EE, (A, mass)) from which _el2a2mass is filled *)
 Definition t_rows : list (string * (Z * Q)) := Eval vm_compute in combine pt_EE (combine pt_A pt_massQ).
 
-Definition el2a2mass (e : string) : list (Z * Q) :=
+Definition rows_of (e : string) : list (Z * Q) :=
   map snd (filter (fun r => String.eqb (fst r) e) t_rows).
+(** the defaultdict _el2a2mass, grouped by element (as association list; duplicates of a mass number kept:
+    only min/max of keys and values are ever used) *)
+Definition t_el2a2mass : list (string * list (Z * Q)) := Eval vm_compute in map (fun e => (e, rows_of e)) pt_E.
+Definition el2a2mass (e : string) : list (Z * Q) :=
+  match assoc e t_el2a2mass with Some l => l | None => [] end.
 
 Definition sval {A} (o : option A) (k : ekind) : outcome A :=
   match o with Some a => Ok a | None => Err k end.
@@ -281,7 +286,7 @@ Definition mmtol : Q := 1 # 2.
 Definition m_ok (tol : Q) (t : mtest) (x : Q) : bool :=
   match t with
   | MEq m => Qeq_bool x m
-  | MNear am => Qlt_b (Qabs (x - am)) tol
+  | MNear am => Qle_bool (Qabs (x - am)) tol            (* abs(x - a_mass) <= mtol *)
   | MNonphys => Qlt_b mmtol x
   | MRange lo hi => Qle_bool (lo - mmtol) x && Qle_bool x (hi + mmtol)
   end.
@@ -294,19 +299,22 @@ Definition qmax (l : list Q) (d : Q) : Q := fold_left (fun a b => if Qle_bool a 
 (** what offer_atomic_number(z) contributes *)
 Record zinfo := { zi_z : Z; zi_E : string; zi_a : Z; zi_at : atest; zi_m : Q; zi_mt : mtest }.
 
+(** min/max of the keys and of the values of _el2a2mass[symbol] *)
+Definition key_range (e : string) : option (Z * Z) :=
+  match map fst (el2a2mass e) with [] => None | a0 :: ks => Some (zmin ks a0, zmax ks a0) end.
+Definition mass_range (e : string) : option (Q * Q) :=
+  match map snd (el2a2mass e) with [] => None | m0 :: vs => Some (qmin vs m0, qmax vs m0) end.
+
 Definition offer_atomic_number (np : bool) (z : Z) : outcome zinfo :=
   obind (to_E_int z) (fun sym =>
   obind (to_mass_int z) (fun zm =>
   obind (to_A_int z) (fun za =>
-  match el2a2mass sym with
-  | [] => Err PyValueError                                   (* min() of an empty sequence *)
-  | (a0, m0) :: rest =>
-      let ks := map fst rest in let vs := map snd rest in
-      Ok {| zi_z := z; zi_E := sym; zi_a := za;
-            zi_at := if np then ANonphys else ARange (zmin ks a0) (zmax ks a0);
-            zi_m := zm;
-            zi_mt := if np then MNonphys else MRange (qmin vs m0) (qmax vs m0) |}
-  end))).
+  obind (sval (key_range sym) PyValueError) (fun kr =>        (* min() of an empty sequence *)
+  obind (sval (mass_range sym) PyValueError) (fun mr =>
+  Ok {| zi_z := z; zi_E := sym; zi_a := za;
+        zi_at := if np then ANonphys else ARange (fst kr) (snd kr);
+        zi_m := zm;
+        zi_mt := if np then MNonphys else MRange (fst mr) (snd mr) |}))))).
 
 Inductive zclue := ZNum (z : Z) | ZSym (e : string).
 
@@ -373,12 +381,16 @@ Definition clues (i : nuc_in) (l : option label_fields) : list clue :=
 
 Definition beqb (a b : bool) : bool := Bool.eqb a b.
 
+(** the label is parsed only when given and speclabel is True *)
+Definition parse_stage (i : nuc_in) : outcome (option label_fields) :=
+  match nlabel i with
+  | Some s => if speclabel i then obind (parse_label s) (fun f => Ok (Some f)) else Ok None
+  | None => Ok None
+  end.
+
 Definition reconcile (i : nuc_in) : outcome nuc_out :=
   obind (mapM (offer_z (nonphysical i)) (zclues_args i)) (fun zi1 =>
-  obind (match nlabel i with
-         | Some s => if speclabel i then obind (parse_label s) (fun f => Ok (Some f)) else Ok None
-         | None => Ok None
-         end) (fun lbl =>
+  obind (parse_stage i) (fun lbl =>
   obind (mapM (offer_z (nonphysical i)) (zclues_label lbl)) (fun zi2 =>
   let zi := zi1 ++ zi2 in
   obind (pick (fun t x => x =? t) (map zi_z zi) (map zi_z zi)) (fun zf =>
